@@ -1,15 +1,17 @@
 import os
 import vlib
 
-THEOREMS = []
+THEOREMS = ["Dispenso.ChaseLev." + t for t in [
+    "C36_bounds", "C36_bounds_outside_pop", "C36_exactly_once", "C36_taken_not_in_deque", "C36_conservation",
+    "C36_conservation_quiescent", "C36_order", "C36_steal_oldest", "C36_pop_newest"]]
 
 
 def run(ctx, replay):
-    ctx.cov["rule"] = ("random producer plans (try_push / try_push_batch) and consumer plans (try_pop / try_pop_batch / "
-                       "size, empty, full) for capacities 1..4 (exact and power-of-two buffer sizes) under the deterministic "
-                       "scheduler; element construction/move are atomic events; every trace is replayed through the Lean "
-                       "model; oracle: popped sequence is a prefix of the pushed sequence, occupancy <= capacity, "
-                       "rejections only when full/empty at call start, lifetimes balance; distinct = (K, #pushed, #popped)")
+    ctx.cov["rule"] = ("one owner performing random try_push / try_pop / try_pop_into sequences and 1..3 thieves calling "
+                       "try_steal (capacities 2, 4, 8) under the deterministic scheduler, followed by a quiescent drain; every "
+                       "trace replayed through the Lean model; oracle: every pushed element returned exactly once, owner pops "
+                       "return the newest remaining element, size <= capacity, drain count = contents; distinct = (capacity, "
+                       "thieves, #pushed, #taken)")
     if THEOREMS:
         ctx.prove("DispensoVerif.Props.C36", THEOREMS)
     else:
